@@ -245,7 +245,7 @@ _COUNTER = [0]
 class Session:
     """Two fresh namespaces, one compiler context, *ns* thread-bound for the whole history (as the REPL does)."""
 
-    def __init__(self, uvi, inline):
+    def __init__(self, uvi):
         from basilisp.lang import compiler, runtime, symbol as sym
 
         self.rt, self.compiler, self.sym = runtime, compiler, sym
@@ -257,8 +257,10 @@ class Session:
 
         tag = "p%dh%d" % (os.getpid(), _COUNTER[0])
         self.nsn = ("c10.%sa" % tag, "c10.%sb" % tag)
-        opts = compiler.compiler_opts(use_var_indirection=uvi, inline_functions=inline, warn_on_var_indirection=False)
-        self.ctx = compiler.CompilerContext("<c10>", opts=opts)
+        self.ctxs = {}
+        for inline in (True, False):
+            opts = compiler.compiler_opts(use_var_indirection=uvi, inline_functions=inline, warn_on_var_indirection=False)
+            self.ctxs[inline] = compiler.CompilerContext("<c10>", opts=opts)
         core = runtime.Namespace.get(sym.symbol("basilisp.core"))
         self.nss = []
         for n in self.nsn:
@@ -269,11 +271,12 @@ class Session:
         self.cm.__enter__()
         self.compiles = 0
 
-    def eval(self, text):
+    def eval(self, text, inline=True):
         last = None
+        ctx = self.ctxs[inline]
         for form in self.reader.read_str(text, resolver=self.rt.resolve_alias):
             self.compiles += 1
-            last = self.compiler.compile_and_exec_form(form, self.ctx, self.rt.get_current_ns())
+            last = self.compiler.compile_and_exec_form(form, ctx, self.rt.get_current_ns())
         return last
 
     def close(self):
@@ -298,11 +301,11 @@ def classify(val, name=None):
     return ("other", type(val).__name__)
 
 
-def try_eval(sess, text):
+def try_eval(sess, text, inline=True):
     from basilisp.lang.compiler import CompilerException
 
     try:
-        return ("ok", sess.eval(text))
+        return ("ok", sess.eval(text, inline))
     except CompilerException as e:
         return ("cex", _short(e))
     except Exception as e:  # noqa
@@ -321,15 +324,16 @@ def name_of(label):
 
 
 class Reader:
-    """A function compiled after some step: remembers what each element denoted and how it was compiled."""
+    """The functions compiled after one step: what each element denoted and how it was compiled."""
 
-    __slots__ = ("k", "ns", "elems", "fn", "linked")
+    __slots__ = ("k", "ns", "linked", "elems", "fn", "ielems", "idefined")
 
 
 def explain(model, t, obs, direct_candidate, reader_ns, linked_then):
-    """Defect model of F-10a: the read was compiled as a direct link to the Python global munge(name) of the Var's
-    module; another name of the same namespace with the same munged form was def'ed last, and its value is what we saw."""
-    if not direct_candidate or t is None or t == _CORE:
+    """Defect model of F-10a: the read was compiled as a direct link to the Python global munge(name) in the module of
+    the Var's namespace; another name of that namespace with the same munged form was def'ed last, and its value is
+    what the read returned."""
+    if not direct_candidate or t is None or t == _CORE or not isinstance(obs, int):
         return None
     g = model.globs.get((t[0], munge(t[1])))
     if g is None or g[1] == t[1] or obs != g[0]:
@@ -341,66 +345,8 @@ def explain(model, t, obs, direct_candidate, reader_ns, linked_then):
     return "munge-collision-shared-module-global"
 
 
-def run_history(group, hist, cfg, res, fails, observe=None):
-    """Execute one history under one configuration; full reads after the last step.  Appends failure tuples
-    (kind, read-label, details) to `fails`.  Returns the list of observations (for the differential check)."""
-    uvi, inline = cfg
-    names = GROUPS[group]
-    model = Model(names)
-    sess = Session(uvi, inline)
-    nsn = sess.nsn
-    obs = []
-    readers = []
-    try:
-        for i, op in enumerate(hist):
-            text = model.form(op, nsn)
-            r = try_eval(sess, text)
-            res.transitions += 1
-            if r[0] != "ok":
-                fails.append(("operation-raises", "step%d" % i, {"form": _generic(text, nsn), "observed": r[1]}))
-                return obs
-            model.apply(op)
-            last = i == len(hist) - 1
-            # the reader function of this step (compiled NOW, kept for later steps)
-            sp = model.spellings(nsn)
-            elems = [(lab, txt, t, mode) for (lab, txt, cls, t, mode) in sp if cls == "must"]
-            rd = Reader()
-            rd.k, rd.ns, rd.linked = i, model.cur, model.cur in model.linked
-            rd.elems = [(lab, t, mode, (not uvi) and t != _CORE and mode == "sym" and not model.indirect(t)) for (lab, txt, t, mode) in elems]
-            body = " ".join(txt for (_, txt, _, _) in elems)
-            r = try_eval(sess, "(defn ^:inline rd%d [] [%s])" % (i, body))
-            if r[0] != "ok":
-                fails.append(("reader-definition-raises", "rd%d" % i, {"body": _generic(body, nsn), "observed": r[1]}))
-                rd.fn = None
-            else:
-                rd.fn = r[1].value
-            readers.append(rd)
-            if not last:
-                continue
-            res.evaluations += 1
-            _reads(model, sess, sp, readers, cfg, obs, fails, res)
-    finally:
-        sess.close()
-    return obs
-
-
 def _generic(text, nsn):
     return text.replace(nsn[0], "A").replace(nsn[1], "B")
-
-
-def _check_elem(model, lab, t, mode, direct_candidate, val, where, obs, fails, reader_ns, linked_then, res):
-    o = classify(val, name_of(lab))
-    obs.append((where, lab, o))
-    res.outcomes.add((lab.split(":")[0], o if not isinstance(o, int) else "int"))
-    allowed = model.allowed(t, direct_candidate) if mode == "sym" else model.allowed(t, False)
-    if o in allowed:
-        return True
-    ex = explain(model, t, o, direct_candidate, reader_ns, linked_then)
-    d = {"expected": sorted(allowed, key=repr), "observed": o, "denotes": _tname(t)}
-    if ex:
-        d["explained_by"] = ex
-    fails.append(("read-wrong-binding" if isinstance(o, int) or o in ("core", "core-other") else "read-wrong-value", "%s %s" % (where, lab), d))
-    return False
 
 
 def _tname(t):
@@ -409,113 +355,207 @@ def _tname(t):
     return "%s/%s" % ("AB"[t[0]], t[1])
 
 
-def _reads(model, sess, sp, readers, cfg, obs, fails, res):
-    uvi, inline = cfg
-    nsn = sess.nsn
-    c = model.cur
-    linked_now = c in model.linked
-    must = [(lab, txt, t, mode) for (lab, txt, cls, t, mode) in sp if cls == "must"]
+class Run:
+    """One history under one linking mode (both inlining modes for every read)."""
 
-    def dc(t, mode):
-        return (not uvi) and t != _CORE and mode == "sym" and not model.indirect(t)
+    def __init__(self, group, hist, uvi, res):
+        self.group, self.hist, self.uvi, self.res = group, hist, uvi, res
+        self.model = Model(GROUPS[group])
+        self.obs = {True: [], False: []}
+        self.fails = []  # (inline, kind, read, details)
 
-    # 1. top level, all resolvable spellings in one form (falls back to one form per spelling on an error)
-    r = try_eval(sess, "[%s]" % " ".join(txt for (_, txt, _, _) in must))
-    if r[0] == "ok" and len(r[1]) == len(must):
-        for (lab, txt, t, mode), val in zip(must, r[1]):
-            _check_elem(model, lab, t, mode, dc(t, mode), val, "top", obs, fails, c, linked_now, res)
-    else:
-        for lab, txt, t, mode in must:
-            r1 = try_eval(sess, txt)
-            if r1[0] == "ok":
-                _check_elem(model, lab, t, mode, dc(t, mode), r1[1], "top", obs, fails, c, linked_now, res)
-            else:
-                obs.append(("top", lab, r1[0]))
-                fails.append(("read-raises", "top " + lab, {"observed": r1[1], "denotes": _tname(t)}))
-    # 2. spellings that must not, or need not, resolve: one form each
-    for lab, txt, cls, t, mode in sp:
-        if cls == "must":
-            continue
-        r1 = try_eval(sess, txt)
-        if r1[0] == "ok":
-            o = classify(r1[1], name_of(lab))
-            obs.append(("top", lab, o))
-            res.outcomes.add((lab.split(":")[0], "resolves"))
-            if cls == "maybe":
-                allowed = model.allowed(t, dc(t, mode)) if mode == "sym" else model.allowed(t, False)
-                if o not in allowed:
-                    ex = explain(model, t, o, dc(t, mode), c, linked_now)
-                    d = {"expected": sorted(allowed, key=repr) + ["error"], "observed": o, "denotes": _tname(t)}
-                    if ex:
-                        d["explained_by"] = ex
-                    fails.append(("read-wrong-binding", "top " + lab, d))
-            elif cls == "cex":
-                fails.append(("private-var-reachable", "top " + lab, {"observed": o, "denotes": _tname(t)}))
-            else:
-                fails.append(("unbound-name-resolves", "top " + lab, {"observed": o}))
-        else:
-            obs.append(("top", lab, r1[0] if cls == "cex" else "error"))
-            res.outcomes.add((lab.split(":")[0], r1[0] + ":" + r1[1].split(":")[0][:40]))
-            if cls == "cex" and r1[0] != "cex":
-                fails.append(("private-var-not-a-compile-error", "top " + lab, {"observed": r1[1]}))
-    # 3. locals shadow Vars (and only the Var of that very name)
-    for n in model.names:
-        t = model.resolve(c, n)
-        parts = [n]
-        exp = [("let:" + n, "local", None)]
-        if (c, n) in model.vars:
-            parts.append("%s/%s" % (nsn[c], n))
-            exp.append(("letown:" + n, (c, n), "sym"))
-        for m in model.names:
-            if m != n and model.resolve(c, m) is not None and not (model.resolve(c, m)[0] != c and "private" in model.vars[model.resolve(c, m)]["flags"]):
-                parts.append(m)
-                exp.append(("let[%s]:%s" % (n, m), model.resolve(c, m), "sym"))
-        r1 = try_eval(sess, "(let [%s %d] [%s])" % (n, LOCAL, " ".join(parts)))
-        if r1[0] != "ok" or len(r1[1]) != len(parts):
-            obs.append(("let", n, r1[0]))
-            fails.append(("read-raises", "let " + n, {"observed": r1[1] if r1[0] != "ok" else "wrong arity"}))
-            continue
-        for (lab, tt, mode), val in zip(exp, r1[1]):
-            if tt == "local":
-                o = classify(val)
-                obs.append(("let", lab, o))
-                if o != LOCAL:
-                    fails.append(("local-does-not-shadow", "let " + lab, {"expected": LOCAL, "observed": o}))
-            else:
-                _check_elem(model, lab, tt, mode, dc(tt, mode), val, "let", obs, fails, c, linked_now, res)
-    # 4. functions: compiled now / earlier, called as objects; and called through a compiled call (inlined or not)
-    for rd in readers:
-        if rd.fn is None:
-            continue
-        now = rd.k == model.step - 1
-        where = "fn-now" if now else "fn-earlier%d" % (model.step - 1 - rd.k)
+    # -- bookkeeping
+
+    def fail(self, inline, kind, read, **d):
+        self.fails.append((inline, kind, read, d))
+
+    def dc(self, t, mode):
+        """Is a read of Var t compiled NOW a direct-link candidate?"""
+        return (not self.uvi) and t != _CORE and mode == "sym" and not self.model.indirect(t)
+
+    def check_elem(self, inline, where, lab, t, mode, direct, val, reader_ns, linked):
+        m = self.model
+        o = classify(val, name_of(lab))
+        self.obs[inline].append((where, lab, o))
+        self.res.outcomes.add((where.split("-")[0], lab.split(":")[0], o if not isinstance(o, int) else "int"))
+        allowed = m.allowed(t, direct and mode == "sym")
+        if o in allowed:
+            return
+        d = {"expected": sorted(allowed, key=repr), "observed": o, "denotes": _tname(t)}
+        ex = explain(m, t, o, direct and mode == "sym", reader_ns, linked)
+        if ex:
+            d["explained_by"] = ex
+        self.fail(inline, "read-wrong-binding", "%s %s" % (where, lab), **d)
+
+    # -- the history
+
+    def execute(self):
+        m = self.model
+        sess = Session(self.uvi)
+        self.nsn = nsn = sess.nsn
+        readers = []
         try:
-            vals = rd.fn()
-            err = None
-        except Exception as e:  # noqa
-            vals, err = None, type(e).__name__ + ": " + _short(e)
-        if err is not None or len(vals) != len(rd.elems):
-            obs.append((where, "call", "error"))
-            fails.append(("read-raises", where, {"observed": err or "wrong arity", "reader": rd.k}))
-        else:
-            for (lab, t, mode, direct_then), val in zip(rd.elems, vals):
-                _check_elem(model, lab, t, mode, direct_then, val, where, obs, fails, rd.ns, rd.linked, res)
-        # compiled call
-        if not rd.elems:
-            continue
-        call = "(rd%d)" % rd.k if rd.ns == c else "(%s/rd%d)" % (nsn[rd.ns], rd.k)
-        wherec = ("call-now" if now else "call-earlier%d" % (model.step - 1 - rd.k)) + ("" if rd.ns == c else "-from-other-ns")
-        r1 = try_eval(sess, call)
-        may_fail = inline and rd.ns != c and any(t != _CORE and "private" in model.vars[t]["flags"] for (_, t, _, _) in rd.elems)
-        if r1[0] != "ok" or len(r1[1]) != len(rd.elems):
-            obs.append((wherec, "call", "error"))
-            if not (may_fail and r1[0] == "cex"):
-                fails.append(("read-raises", wherec, {"observed": r1[1] if r1[0] != "ok" else "wrong arity", "reader": rd.k, "call": _generic(call, nsn)}))
-            continue
-        for (lab, t, mode, direct_then), val in zip(rd.elems, r1[1]):
-            direct = dc(t, mode) if inline else direct_then
-            linked = (c in model.linked) if inline else rd.linked
-            _check_elem(model, lab, t, mode, direct, val, wherec, obs, fails, c if inline else rd.ns, linked, res)
+            for i, op in enumerate(self.hist):
+                text = m.form(op, nsn)
+                r = try_eval(sess, text)
+                self.res.transitions += 1
+                if r[0] != "ok":
+                    for inline in (True, False):
+                        self.fail(inline, "operation-raises", "step%d" % i, form=_generic(text, nsn), observed=r[1])
+                    return self
+                m.apply(op)
+                sp = m.spellings(nsn)
+                readers.append(self.define_readers(sess, i, sp))
+            self.res.evaluations += 2
+            for inline in (True, False):
+                self.reads(sess, sp, readers, inline)
+        finally:
+            sess.close()
+        return self
+
+    def define_readers(self, sess, i, sp):
+        m = self.model
+        must = [(lab, txt, t, mode) for (lab, txt, cls, t, mode) in sp if cls == "must"]
+        rd = Reader()
+        rd.k, rd.ns, rd.linked = i, m.cur, m.cur in m.linked
+        rd.elems = [(lab, t, mode, self.dc(t, mode)) for (lab, txt, t, mode) in must]
+        rd.fn = None
+        rd.idefined = False
+        if must:
+            r = try_eval(sess, "(fn [] [%s])" % " ".join(txt for (_, txt, _, _) in must))
+            if r[0] != "ok":
+                for inline in (True, False):
+                    self.fail(inline, "read-raises", "fn-definition%d" % i, observed=r[1])
+            else:
+                rd.fn = r[1]
+        # the ^:inline reader: bare and alias spellings (the ones whose meaning depends on where they are resolved)
+        imust = [e for e in must if e[0].split(":")[0] in ("bare", "alias")]
+        rd.ielems = [(lab, t, mode, self.dc(t, mode)) for (lab, txt, t, mode) in imust]
+        if imust:
+            r = try_eval(sess, "(defn ^:inline rd%d [] [%s])" % (i, " ".join(txt for (_, txt, _, _) in imust)))
+            if r[0] != "ok":
+                for inline in (True, False):
+                    self.fail(inline, "read-raises", "inline-fn-definition%d" % i, observed=r[1])
+            else:
+                rd.idefined = True
+        return rd
+
+    def reads(self, sess, sp, readers, inline):
+        m = self.model
+        nsn = self.nsn
+        c = m.cur
+        linked_now = c in m.linked
+        obs = self.obs[inline]
+        must = [(lab, txt, t, mode) for (lab, txt, cls, t, mode) in sp if cls == "must"]
+        # 1. top level: all resolvable spellings in one form (one form per spelling if that raises)
+        if must:
+            r = try_eval(sess, "[%s]" % " ".join(txt for (_, txt, _, _) in must), inline)
+            if r[0] == "ok" and len(r[1]) == len(must):
+                for (lab, txt, t, mode), val in zip(must, r[1]):
+                    self.check_elem(inline, "top", lab, t, mode, self.dc(t, mode), val, c, linked_now)
+            else:
+                for lab, txt, t, mode in must:
+                    r1 = try_eval(sess, txt, inline)
+                    if r1[0] == "ok":
+                        self.check_elem(inline, "top", lab, t, mode, self.dc(t, mode), r1[1], c, linked_now)
+                    else:
+                        obs.append(("top", lab, "error"))
+                        self.fail(inline, "read-raises", "top " + lab, observed=r1[1], denotes=_tname(t))
+        # 2. spellings that must not, or need not, resolve: one form each
+        for lab, txt, cls, t, mode in sp:
+            if cls == "must":
+                continue
+            r1 = try_eval(sess, txt, inline)
+            if r1[0] == "ok":
+                o = classify(r1[1], name_of(lab))
+                obs.append(("top", lab, o))
+                self.res.outcomes.add(("top", lab.split(":")[0], cls + "->resolves"))
+                if cls == "maybe":
+                    allowed = m.allowed(t, self.dc(t, mode))
+                    if o not in allowed:
+                        d = {"expected": sorted(allowed, key=repr) + ["error"], "observed": o, "denotes": _tname(t)}
+                        ex = explain(m, t, o, self.dc(t, mode), c, linked_now)
+                        if ex:
+                            d["explained_by"] = ex
+                        self.fail(inline, "read-wrong-binding", "top " + lab, **d)
+                elif cls == "cex":
+                    self.fail(inline, "private-var-reachable", "top " + lab, observed=o, denotes=_tname(t))
+                else:
+                    self.fail(inline, "unbound-name-resolves", "top " + lab, observed=o)
+            else:
+                obs.append(("top", lab, r1[0] if cls == "cex" else "error"))
+                self.res.outcomes.add(("top", lab.split(":")[0], r1[0] + ":" + r1[1].split(":")[0][:40]))
+                if cls == "cex" and r1[0] != "cex":
+                    self.fail(inline, "private-var-not-a-compile-error", "top " + lab, observed=r1[1])
+        # 3. locals shadow Vars (and only the Var of that very name)
+        for n in m.names:
+            parts = [n]
+            exp = [("let:" + n, "local", None)]
+            if (c, n) in m.vars:
+                parts.append("%s/%s" % (nsn[c], n))
+                exp.append(("letown:" + n, (c, n), "sym"))
+            for n2 in m.names:
+                t2 = m.resolve(c, n2)
+                if n2 != n and t2 is not None and not (t2[0] != c and "private" in m.vars[t2]["flags"]):
+                    parts.append(n2)
+                    exp.append(("let[%s]:%s" % (n, n2), t2, "sym"))
+            r1 = try_eval(sess, "(let [%s %d] [%s])" % (n, LOCAL, " ".join(parts)), inline)
+            if r1[0] != "ok" or len(r1[1]) != len(parts):
+                obs.append(("let", n, "error"))
+                self.fail(inline, "read-raises", "let " + n, observed=r1[1] if r1[0] != "ok" else "wrong arity")
+                continue
+            for (lab, tt, mode), val in zip(exp, r1[1]):
+                if tt == "local":
+                    o = classify(val)
+                    obs.append(("let", lab, o))
+                    if o != LOCAL:
+                        self.fail(inline, "local-does-not-shadow", "let " + lab, expected=LOCAL, observed=o)
+                else:
+                    self.check_elem(inline, "let", lab, tt, mode, self.dc(tt, mode), val, c, linked_now)
+        # 4. functions compiled now / earlier
+        for rd in readers:
+            age = m.step - 1 - rd.k
+            if rd.fn is not None:  # called as an object (the inlining option plays no part; read in both passes)
+                where = "fn-now" if age == 0 else "fn-earlier%d" % age
+                try:
+                    vals, err = rd.fn(), None
+                except Exception as e:  # noqa
+                    vals, err = None, type(e).__name__ + ": " + _short(e)
+                if err is not None or len(vals) != len(rd.elems):
+                    obs.append((where, "call", "error"))
+                    self.fail(inline, "read-raises", where, observed=err or "wrong arity")
+                else:
+                    for (lab, t, mode, direct_then), val in zip(rd.elems, vals):
+                        self.check_elem(inline, where, lab, t, mode, direct_then, val, rd.ns, rd.linked)
+            if not rd.idefined:
+                continue
+            # through a compiled call of the ^:inline function (spliced into this form when inlining is on)
+            other = rd.ns != c
+            call = "(%s/rd%d)" % (nsn[rd.ns], rd.k) if other else "(rd%d)" % rd.k
+            where = ("call-now" if age == 0 else "call-earlier%d" % age) + ("-from-other-ns" if other else "")
+            for shadow in (False, True):
+                text = call
+                if shadow:
+                    # a local of the CALLER named like a Var the function reads must not change what the function reads
+                    names = sorted({name_of(lab) for (lab, _, _, _) in rd.ielems if lab.startswith("bare:")})
+                    if not names:
+                        continue
+                    text = "(let [%s] %s)" % (" ".join("%s %d" % (n, LOCAL) for n in names), call)
+                wh = where + ("-under-local" if shadow else "")
+                r1 = try_eval(sess, text, inline)
+                may_fail = inline and other and any(t != _CORE and "private" in m.vars[t]["flags"] for (_, t, _, _) in rd.ielems)
+                if r1[0] != "ok" or len(r1[1]) != len(rd.ielems):
+                    if may_fail and r1[0] == "cex":
+                        obs.extend((wh, lab, "?") for (lab, _, _, _) in rd.ielems)  # "?" = not compared
+                    else:
+                        obs.extend((wh, lab, "error") for (lab, _, _, _) in rd.ielems)
+                        self.fail(inline, "read-raises", wh, observed=r1[1] if r1[0] != "ok" else "wrong arity", call=_generic(text, nsn))
+                    continue
+                for (lab, t, mode, direct_then), val in zip(rd.ielems, r1[1]):
+                    if inline:
+                        self.check_elem(inline, wh, lab, t, mode, self.dc(t, mode), val, c, linked_now)
+                    else:
+                        self.check_elem(inline, wh, lab, t, mode, direct_then, val, rd.ns, rd.linked)
 
 
 # --------------------------------------------------------------------------- enumeration
@@ -528,78 +568,108 @@ def model_after(group, hist):
     return m
 
 
+def _case(group, hist, cfg, read):
+    return {
+        "group": group,
+        "history": [list(o) for o in hist],
+        "config": {"use_var_indirection": cfg[0], "inline_functions": cfg[1]} if cfg else "all",
+        "read": read,
+    }
+
+
 def check_history(group, hist, res):
-    """All four configurations of one history + the differential comparison."""
+    """Both linking modes x both inlining modes of one history, then the differential comparison."""
     allobs = {}
-    failed_reads = set()
+    failed = {}
     m = model_after(group, hist)
-    for cfg in CONFIGS:
-        fails = []
-        allobs[cfg] = run_history(group, hist, cfg, res, fails)
-        for kind, read, d in fails:
-            failed_reads.add(read)
-            case = {"group": group, "history": [list(o) for o in hist], "config": {"use_var_indirection": cfg[0], "inline_functions": cfg[1]}, "read": read}
-            res.fail(kind, case, **d)
+    for uvi in (False, True):
+        run = Run(group, hist, uvi, res).execute()
+        for inline in (True, False):
+            allobs[(uvi, inline)] = run.obs[inline]
+        # one failure record per (configuration, kind, explanation): the first read + how many reads
+        agg = {}
+        for inline, kind, read, d in run.fails:
+            failed.setdefault((uvi, inline), set()).add(read)
+            k = (inline, kind, d.get("explained_by"))
+            if k not in agg:
+                agg[k] = [read, d, 0, []]
+            agg[k][2] += 1
+            if len(agg[k][3]) < 8:
+                agg[k][3].append(read)
+        for (inline, kind, ex), (read, d, n, reads) in agg.items():
+            res.fail(kind, _case(group, hist, (uvi, inline), read), reads_failing=n, reads=reads, **d)
     if not m.altered:
-        base = allobs[(True, False)]
-        for cfg in CONFIGS[:3]:
+        base_cfg = (True, False)
+        base = allobs[base_cfg]
+        diffs = []
+        for cfg in CONFIGS:
+            if cfg == base_cfg:
+                continue
             o = allobs[cfg]
+            bad = failed.get(cfg, set()) | failed.get(base_cfg, set())
             if len(o) != len(base):
-                if not failed_reads:
-                    res.fail("configurations-disagree", {"group": group, "history": [list(x) for x in hist], "config": "all", "read": "number of reads"}, observed=[len(o), len(base)])
+                if not bad:
+                    diffs.append((cfg, "number of reads", len(o), len(base)))
                 continue
             for a, b in zip(o, base):
-                if a != b and ("%s %s" % (a[0], a[1])) not in failed_reads and a[0] not in failed_reads:
-                    res.fail(
-                        "configurations-disagree",
-                        {"group": group, "history": [list(x) for x in hist], "config": "all", "read": "%s %s" % (a[0], a[1])},
-                        observed={"use_var_indirection=%s inline=%s" % cfg: a[2], "use_var_indirection=True inline=False": b[2]},
-                    )
+                rd = "%s %s" % (a[0], a[1])
+                if a != b and "?" not in (a[2], b[2]) and rd not in bad and a[0] not in bad:
+                    diffs.append((cfg, rd, a[2], b[2]))
+        if diffs:
+            cfg, rd, a, b = diffs[0]
+            res.fail(
+                "configurations-disagree",
+                _case(group, hist, None, rd),
+                observed={"use_var_indirection=%s inline_functions=%s" % cfg: a, "use_var_indirection=True inline_functions=False": b},
+                reads_failing=len(diffs),
+            )
     if m.vars:
         res.distinct.add((group, tuple(hist)))
     res.part("group:" + group, histories=1, **{"len%d" % len(hist): 1})
 
 
-def explore(group, prefix, max_len, res):
+def explore(group, prefix, max_len, res, alphabet=None):
     """bfs.search over the extensions of `prefix` (every history is its own state)."""
-    sessions = [0]
+    n = [0]
 
     def actions(hist):
-        return model_after(group, hist).enabled(hist[-1] if hist else None)
+        ops = model_after(group, hist).enabled(hist[-1] if hist else None)
+        if alphabet is not None and len(hist) >= alphabet[0]:
+            ops = [o for o in ops if o[0] != "def" or o[2] in alphabet[1]]
+        return ops
 
     def step(hist, op):
         h2 = hist + (op,)
         check_history(group, h2, res)
-        sessions[0] += 1
-        if sessions[0] % 200 == 0:
+        n[0] += 1
+        if n[0] % 100 == 0:
             gc.collect()
         return h2
 
-    st = bfs.search(tuple(prefix), actions, step, max_len - len(prefix))
-    return st
+    return bfs.search(tuple(prefix), actions, step, max_len - len(prefix))
 
 
 def shard_fn(args):
-    group, prefix, max_len = args
+    group, prefix, max_len, alphabet = args
     res = Result()
     t0 = time.process_time()
-    if prefix is None:
-        # the short histories that are prefixes of the other shards
-        plen = args[3]
-        frontier = [()]
-        for _ in range(plen):
-            nxt = []
-            for h in frontier:
-                for op in model_after(group, h).enabled(h[-1] if h else None):
-                    h2 = h + (op,)
-                    check_history(group, h2, res)
-                    nxt.append(h2)
-            frontier = nxt
-    else:
-        st = explore(group, prefix, max_len, res)
-        res.part("bfs", transitions=st.transitions, states=st.states - 1)
+    st = explore(group, prefix, max_len, res, alphabet)
+    res.part("bfs", transitions=st.transitions, histories=st.states - 1, frontier_exhausted=st.frontier_exhausted)
     res.part("cpu", cpu_s=round(time.process_time() - t0, 2))
     return res.compact()
+
+
+def roots_shard(args):
+    """The histories no longer than the shard roots."""
+    group, plen = args
+    res = Result()
+    st = explore(group, (), plen, res)
+    res.part("bfs", transitions=st.transitions, histories=st.states - 1, frontier_exhausted=st.frontier_exhausted)
+    return res.compact()
+
+
+def _dispatch(args):
+    return roots_shard(args[1:]) if args[0] == "roots" else shard_fn(args[1:])
 
 
 def prefixes(group, plen):
@@ -613,29 +683,28 @@ def prefixes(group, plen):
     return frontier
 
 
-def plan(tier):
-    if tier == "quick":
-        return {"dash": 3, "qmark": 3, "builtin": 3, "single": 2, "cross": 2}
-    return {"dash": 5, "qmark": 4, "builtin": 4, "cross": 4, "single": 3}
+# (group, max length, (from depth, def flags kept from that depth on) or None)
+PLAN = {
+    "quick": [("dash", 3, None), ("qmark", 2, None), ("builtin", 2, None), ("single", 2, None), ("cross", 2, None)],
+    "thorough": [("dash", 4, None), ("qmark", 4, None), ("builtin", 4, None), ("cross", 3, None), ("single", 3, None)],
+}
 
 
 def run(tier, seed):
     res = Result()
     shards = []
-    for group, L in plan(tier).items():
-        plen = 1 if L <= 3 else 2
-        plen = min(plen, L)
-        shards.append((group, None, L, plen))
+    for group, L, alphabet in PLAN[tier]:
+        plen = min(L, 1 if L <= 3 else 2)
+        shards.append(("roots", group, plen))
         if L > plen:
             for p in prefixes(group, plen):
-                shards.append((group, p, L))
-    # biggest first would need sizes; rotate deterministically by seed instead
+                shards.append(("sub", group, p, L, alphabet))
     if seed:
         k = seed % len(shards)
         shards = shards[k:] + shards[:k]
     gc.collect()
     gc.freeze()
-    for r in env.parallel(shard_fn, shards):
+    for r in env.parallel(_dispatch, shards):
         res.merge(r)
     res.notes.append("configurations: " + ", ".join("use-var-indirection=%s/inline-functions=%s" % c for c in CONFIGS))
     cnt = Counter((f["kind"], f.get("explained_by", "-")) for f in res.failures)
